@@ -66,6 +66,42 @@ for _sec, _bf, _ua in ((None, 6, None), (None, 9, 4)):
         _ob_two_users(_sec, _bf, _ua, farms=((4, 12), (2, 9))))
 
 
+def _ob_cursor_gap(until_a):
+    def s(I):
+        # alice's claim cursor (epoch 5) is older than her first weight on this LP token (epoch 8): she claimed while holding only another LP token
+        sc = Scn(I, alice_second=None, bob_from=3, last_a=5, alice_from=8, cursor_gap=True)
+        b = sc.b
+        f0 = sc.farms[0]
+        I.assume(smt.Eq(f0['claimed0'], 0))
+        pre = b.snapshot()
+        st_a, _ = sc.claim('alice', until_a)
+        st_b, _ = sc.claim('bob', None)
+        st_a2, _ = sc.claim('alice', None)
+        I.observe('status', 'ok' if st_a2 == 'ok' else 'err')
+        observe_claim_state(I, sc)
+        I.cover('done', HINT)
+        I.check('first_claim_succeeds', st_a == 'ok')
+        I.check('claim_of_other_user_succeeds_afterwards', st_b == 'ok')
+        I.check('later_claim_of_first_user_succeeds', st_a2 == 'ok')
+        paid_a = simp(b.get('alice', 'uusd') - pre.get('alice', 'uusd'))
+        paid_b = simp(b.get('bob', 'uusd') - pre.get('bob', 'uusd'))
+        exp_a, _ = sc.expected('alice', E)
+        exp_b, _ = sc.expected('bob', E)
+        I.check('nothing_paid_before_the_weight_took_effect', smt.Eq(paid_a, exp_a))
+        I.check('other_user_paid_exactly_their_epoch_shares', smt.Eq(paid_b, exp_b))
+        I.check('total_paid_within_emission_of_elapsed_epochs', paid_a + paid_b <= f0['rate'] * (min(E, f0['end'] - 1) - f0['start'] + 1))
+    return s
+
+
+for _ua in (None, 9):
+    obligation('C06', 'B1.cursor_older_than_first_weight_until%s' % _ua, entries=['execute', 'claim', 'calculate_rewards', 'compute_address_weights'], kind='B',
+               statement='a user whose claim cursor (from a claim made while holding another LP token only) is older than their first weight on this LP token is paid '
+                         'nothing for the epochs in between; the other user is paid their exact shares and every claim succeeds',
+               bounds='current epoch 10, farm [4,12), A: cursor 5, first weight at epoch 8, B from epoch 3; A\'s first claim until %s; weights / rate symbolic' % _ua,
+               covers=['done'],
+               replay=replay_scn(None, 5, bob_from=3, alice_from=8, cursor_gap=True, actions=[('alice', _ua), ('bob', None), ('alice', None)]))(_ob_cursor_gap(_ua))
+
+
 def _ob_emergency_then_claims(I):
     """carol emergency-withdraws a CLOSED (still locked) position at epoch 10; in epoch 11 alice and bob claim"""
     sc = Scn(I, alice_second=None, bob_from=6)
